@@ -1640,6 +1640,9 @@ def offsets_u2q(F, FL):
         for e in evs:
             if e['ev'] == 'branch':
                 info['guards'].append(e)
+                gb_ = _excess_guard_bad(e, decls, marks, hdr_var)
+                if gb_ and not info.get('guard_bad'):
+                    info['guard_bad'] = gb_
             if e['ev'] == 'decl':
                 v = e['var']
                 decls[v['id']] = v
@@ -1768,6 +1771,47 @@ def _declared_end_excess(arg, decls, marks, hdr_var):
 
 
 _NARROW_T = re.compile(r'^(const )?(unsigned |signed )?(int|short|char|long int)$|^(const )?u?int(8|16|32)_t$|^(const )?unsigned$')
+
+
+def _excess_guard_bad(e, decls, marks, hdr_var):
+    """T1g: a test of the excess  tellg() - (MARK + objectSize)  (what was read beyond the declared end) that decides whether the worker steps
+    back must separate  excess >= 1  from  excess <= 0: with any other threshold (excess > objectSize % 4, ...) an object that was read
+    beyond its declared end by less than the threshold leaves the get position inside the next object, whose signature is then missed.
+    -> text of the offending test or None"""
+    c = strip_all_casts(e.get('n')) if isinstance(e.get('n'), dict) else None
+    while isinstance(c, dict) and c.get('k') == 'Paren':
+        c = strip_all_casts(c.get('sub'))
+    if not isinstance(c, dict) or c.get('k') != 'Bin' or c.get('op') not in ('<', '<=', '>', '>=', '==', '!='):
+        return None
+    L = _lin_seek(c['lhs'], decls, marks, hdr_var)
+    R = _lin_seek(c['rhs'], decls, marks, hdr_var)
+
+    def is_excess(cf):
+        if cf is None:
+            return 0
+        d = {k_: v_ for k_, v_ in cf.items() if k_ != '1' and v_ != 0}
+        mk = [k_ for k_ in d if str(k_).startswith('M:')]
+        if len(d) == 3 and len(mk) == 1 and d.get('T') in (1, -1) and d.get('S') == -d['T'] and d[mk[0]] == -d['T']:
+            return d['T']
+        return 0
+    op = c['op']
+    if L is not None and R is not None:
+        D = dict(L[0])
+        for k_, v_ in R[0].items():
+            D[k_] = D.get(k_, 0) - v_
+        sg = is_excess(D)
+        if not sg:
+            return None
+        k0 = D.get('1', 0)
+        if sg < 0:      # -excess + k0 OP 0  <=>  excess - k0 FLIP(OP) 0
+            op = {'<': '>', '<=': '>=', '>': '<', '>=': '<=', '==': '==', '!=': '!='}[op]
+            k0 = -k0
+        # excess + k0 OP 0
+        good = (op in ('>', '<=') and k0 == 0) or (op in ('>=', '<') and k0 == -1) or (op in ('!=', '==') and k0 == 0)
+        return None if good else expr_str(c)
+    if (is_excess(L[0]) if L else 0) or (is_excess(R[0]) if R else 0):
+        return expr_str(c)     # the excess compared with something that is not a constant
+    return None
 
 
 def _lin_seek(e, decls, marks, hdr_var, depth=0):
@@ -2064,6 +2108,11 @@ def T1(F, rep, FL):
                 break
         else:
             end = i['end']
+            if i.get('guard_bad'):
+                bad = ('the test that decides whether the worker steps back to the declared end of the object (%s) does not separate "read beyond the '
+                       'declared end" (excess >= 1) from "not beyond" (excess <= 0): an object read beyond its declared end by less than the threshold '
+                       'leaves the get position inside the next object, whose signature is missed - the neighbour is lost' % i['guard_bad'])
+                break
             if i.get('repos') == 'declared-end' and i.get('narrow'):
                 bad = ('the step back to the declared end of the object is computed in %s: a declared size (or a distance) of 2 GiB and more turns '
                        'negative there and the get position is moved backwards by up to 2 GiB - the same bytes are decoded again, or the signature search '
